@@ -387,7 +387,43 @@ def _functional_accumulation(ctx, chk, s, rule):
                           found=norm_stmt(r), construct="%s drops earlier roots" % g.short)
 
 
+def _falsy_replaced_marks(ctx, chk, rule):
+    """`marks = marks or set()` on a parameter that callers hand in to SHARE (a set of visited states): an empty container is
+    falsy, so the caller's still-empty set is replaced by a fresh one and what this call records is lost to the caller - the next
+    search starts without the marks of this one.  True if reported."""
+    hit = False
+    for g in ctx.prog.all_funcs(("reverse_dfs.py",)):
+        for st in walk_no_nested_defs(g.node):
+            if not (isinstance(st, ast.Assign) and len(st.targets) == 1 and isinstance(st.targets[0], ast.Name) and st.targets[0].id in g.params
+                    and isinstance(st.value, ast.BoolOp) and isinstance(st.value.op, ast.Or) and len(st.value.values) == 2
+                    and isinstance(st.value.values[0], ast.Name) and st.value.values[0].id == st.targets[0].id):
+                continue
+            p_ = st.targets[0].id
+            fresh = st.value.values[1]
+            if not (isinstance(fresh, (ast.List, ast.Set, ast.Dict)) or (isinstance(fresh, ast.Call) and call_name(fresh) in ("set", "list", "dict", "collections.deque", "deque"))):
+                continue
+            mutated = any(isinstance(c, ast.Call) and isinstance(c.func, ast.Attribute) and isinstance(c.func.value, ast.Name) and c.func.value.id == p_
+                          and c.func.attr in ("add", "append", "update", "extend", "appendleft") for c in walk_no_nested_defs(g.node))
+            passed = False
+            for h in ctx.prog.all_funcs(("reverse_dfs.py", "tad.py")):
+                for call, cs in ctx.cg.call_sites(h):
+                    if any(c_.qual == g.qual for c_ in cs):
+                        ps = [x for x in g.params if x != "self"]
+                        if (p_ in ps and ps.index(p_) < len(call.args)) or any(k.arg == p_ for k in call.keywords):
+                            passed = True
+            if mutated and passed:
+                hit = True
+                chk.violation(rule, g.where(st), "`%s`: an EMPTY container handed in by the caller is falsy and is replaced by a fresh one, so what %s records in it (the visited marks) never "
+                              "reaches the caller's object - the searches no longer share their marks and a state is found once per final state that reaches it" % (norm_stmt(st), g.short),
+                              expected="`if %s is None: %s = ...`" % (p_, p_), found=norm_stmt(st), construct="%s falsy container replaced" % g.short)
+    return hit
+
+
 def r35_worklist(ctx, chk, rule3="C07.3", rule5="C07.5"):
+    # (the marks lost to the caller cost the exactly-once clause of C07 only: each search still terminates and is complete, so the
+    # properties that use the search as a prerequisite - values, strategies - are not touched by it)
+    if rule3 == "C07.3" and _falsy_replaced_marks(ctx, chk, rule3):
+        return
     s = _search(ctx)
     g = _generic(ctx)
     if g is not None:
